@@ -72,6 +72,8 @@
 // [Env.Launch] builds otelcol.NewCollector with the Env's factories and a [Provider] serving the
 // YAML, and calls Run on a goroutine. [Running.AwaitRunning] waits (without deciding anything) until
 // the collector is Running or Run returned; [Running.Stop] requests shutdown and returns Run's error.
+// A panic that escapes Collector.Run is recovered on the runner's goroutine and re-raised as *[RunPanic]
+// by AwaitRunning / Wait / Stop on the caller's goroutine (see [UnwrapPanic]).
 // No OS signal handling is requested (DisableGracefulShutdown). Callers must wrap a case in
 // driver.Ctx.Guard with [Seq] as progress function so that a collector that never stops cannot hang
 // the check. [Provider.Fire] delivers at most one change event per Retrieve and never after the
